@@ -29,6 +29,9 @@ Fixpoint bs (l : list N) : string :=
   | n :: r => String (ascii_of_N n) (bs r)
   end.
 
+(** strict order on Q as a boolean *)
+Definition Qltb (a b : Q) : bool := match Qcompare a b with Lt => true | _ => false end.
+
 (** ** Values of decimals *)
 Definition pow10Q (e : Z) : Q := Qpower (inject_Z 10) e.
 Definition pow2Q (e : Z) : Q := Qpower (inject_Z 2) e.
